@@ -79,6 +79,7 @@ def pyeval(expr, m, t, l, mask):
 
 
 from ..valueflow import compose_maps
+from .. import bounds as BN
 
 def run(c, facts, tier):
     posix = json.load(open(POSIX))
@@ -160,8 +161,8 @@ def run(c, facts, tier):
         c.ob("C08.algebra", pp.key, "clause part %s = [%s]%s" % (role, cs, "+" if role != "op" else ""), role[0] != "?" and rng == want_rng, "parser element over %r, range %s..%s" % (cs, rng[0], rng[1]), nontrivial=False)
     c.ob("C08.algebra", pp.key, "clause parts are parsed in the order who, op, perm", order == ["who", "op", "perm"], "order of the clause parts in the parser: %s" % order, nontrivial=False)
     c.ob("C08.algebra", pp.key, "clause = who+ op perm+", sorted(order) == ["op", "perm", "who"], "roles: %s" % order)
-    WHO = [P.Opq("who%d" % i_) for i_ in range(3)]
-    PERM = [P.Opq("perm%d" % i_) for i_ in range(3)]
+    WHO = [P.Opq("who%d" % i_) for i_ in range(BN.N)]
+    PERM = [P.Opq("perm%d" % i_) for i_ in range(BN.N)]
 
     class ClauseCtx(irval.Ctx):
         def __init__(self, op):
@@ -357,7 +358,7 @@ def run(c, facts, tier):
     else:
         conc_err = "not needed"
     if conc_err is None:
-        c.analysed["C08 clause evaluation"] = "concrete letters: every who/perm string of up to three letters"
+        c.analysed["C08 clause evaluation"] = "concrete letters: every who/perm string of up to %d letters" % BN.N
         for ch, val in list(posix["who"].items()) + list(posix["perm"].items()):
             # the value of one letter, read off a clause that hands it through: `X=rwx` from mode 0 is who(X), `a=X` is perm(X)
             try:
@@ -368,15 +369,15 @@ def run(c, facts, tier):
             c.ob("C08.who-perm", "Permission::value", "'%s' → %s" % (ch, val), got == wantv, "clause `%s` applied to mode 0 gives %s; chmod: %s" % ("%s=rwx" % ch if ch in posix["who"] else "a=%s" % ch, oct(got) if got is not None else None, oct(wantv)), witness="-perm %s" % ("%s+r" % ch if ch in "ugoa" else "u+%s" % ch) if got != wantv else None)
         bad, nstr = [], 0
         try:
-            for w_ in strings("ugoa", 3):
+            for w_ in strings("ugoa", BN.N):
                 nstr += 1
                 if concrete("=", w_, "rwx")[0] != letters_value(posix["who"], w_) & 0o777 and len(bad) < 3:
                     bad.append("%s=rwx → %s" % (w_, oct(concrete("=", w_, "rwx")[0])))
-            for p_ in strings("rwx", 3):
+            for p_ in strings("rwx", BN.N):
                 nstr += 1
                 if concrete("=", "a", p_)[0] != letters_value(posix["perm"], p_) & 0o777 and len(bad) < 3:
                     bad.append("a=%s → %s" % (p_, oct(concrete("=", "a", p_)[0])))
-            ok_or, det_or = not bad, "every who string and every perm string of one to three letters (%d strings) evaluated through the clause parser and update(): each is the OR of its letters%s" % (nstr, "" if not bad else "; EXCEPT " + "; ".join(bad))
+            ok_or, det_or = not bad, "every who string and every perm string of up to " + str(BN.N) + " letters (%d strings) evaluated through the clause parser and update(): each is the OR of its letters%s" % (nstr, "" if not bad else "; EXCEPT " + "; ".join(bad))
         except (Unknown, P.NoEval, P.Panic) as ex:
             ok_or, det_or = None, "not evaluable: %s" % ex
         c.ob("C08.who-perm", "Permission::from_symbolic_str", "a who/perm string is the OR of its letters", ok_or, det_or)
@@ -401,12 +402,12 @@ def run(c, facts, tier):
             try:
                 bad = []
                 for tree, xs in zip(clause["="][2], (WHO, PERM)):
-                    for bits in itertools.product((0, 1), repeat=3):
+                    for bits in itertools.product((0, 1), repeat=BN.N):
                         asg = {id(x): v for x, v in zip(xs, bits)}
                         if tree_bits(tree, asg) != (1 if any(bits) else 0):
                             bad.append((repr(tree)[:60], bits))
                 ok_or = not bad
-                det_or = "the two parts of a clause evaluated on three unknown letters each: every one is the OR of value(letter) over the letters (8 rows each)%s" % ("" if not bad else "; EXCEPT %s" % bad[:2])
+                det_or = "the two parts of a clause evaluated on " + str(BN.N) + " unknown letters each: every one is the OR of value(letter) over the letters (%d rows each)" % (2 ** BN.N) + "%s" % ("" if not bad else "; EXCEPT %s" % bad[:2])
             except Unknown as ex:
                 det_or = "not a bitwise expression of the letters: %s" % ex
         c.ob("C08.who-perm", "Permission::from_symbolic_str", "a who/perm string is the OR of its letters", ok_or, det_or)
@@ -448,8 +449,8 @@ def run(c, facts, tier):
             pru = P.Probe(facts, None, upd.module)
             out = pru.invoke(upd, cv, [M])
             for m_ in (0, 1):
-                for tb in itertools.product((0, 1), repeat=3):
-                    for lb in itertools.product((0, 1), repeat=3):
+                for tb in itertools.product((0, 1), repeat=BN.N):
+                    for lb in itertools.product((0, 1), repeat=BN.N):
                         asg = {id(M): m_}
                         asg.update({id(x): v for x, v in zip(WHO, tb)})
                         asg.update({id(x): v for x, v in zip(PERM, lb)})
@@ -538,7 +539,7 @@ def run(c, facts, tier):
     if symb is not None:
         sp = leaf_of(symb)
         sepok = A.unwrap(sp["sep"])["t"] == "lit" and A.unwrap(sp["sep"])["s"] == "," and sp["min"] == 1 and sp["max"] is None and A.unwrap(sp["p"])["t"] == "ref" and A.unwrap(sp["p"])["fn"] == pp.key
-        CL = [P.Opq("clause%d" % i_) for i_ in range(3)]
+        CL = [P.Opq("clause%d" % i_) for i_ in range(BN.N)]
 
         class FoldCtx(irval.Ctx):
             def rep(self, node):
@@ -563,7 +564,7 @@ def run(c, facts, tier):
             okw = isinstance(v, tuple) and v and v[0] == "enum" and v[1] == "Permission" and len(v[2]) == 1
             if okw:
                 seq, seed = unfold(v[2][0])
-                okw = len(seq) == 3 and {id(x) for x in seq} == {id(x) for x in CL}
+                okw = len(seq) == BN.N and {id(x) for x in seq} == {id(x) for x in CL}
                 okf = okw and [id(x) for x in seq] == [id(x) for x in reversed(CL)] and seed == 0
         except (P.NoEval, P.Panic) as ex:
             det = "the map chain over the clause list is not evaluable: %s" % ex
